@@ -237,7 +237,9 @@ func httpishGrammars() []grammar {
 		return fmt.Sprintf(`{"jsonrpc":"2.0","method":"%s","params":[],"id":%d}`, m, id)
 	}
 	gs = append(gs, oneShotHTTP("ethereum",
-		func(e lab.EventMap) string { return kv(e, "ethereum.method", "ethereum.id", "ethereum.jsonrpc", "http.method", "http.url", "payload-hex") },
+		func(e lab.EventMap) string {
+			return kv(e, "ethereum.method", "ethereum.id", "ethereum.jsonrpc", "http.method", "http.url", "payload-hex")
+		},
 		tok("eth_blockNumber", httpReq("POST", "/", "eth", []string{"Content-Type: application/json"}, rpc("eth_blockNumber", 7), false), "ethereum.method=eth_blockNumber|ethereum.id=7|ethereum.jsonrpc=2.0|http.method=POST|http.url=/|payload-hex="+hx(rpc("eth_blockNumber", 7))),
 		tok("eth_accounts", httpReq("POST", "/", "eth", []string{"Content-Type: application/json"}, rpc("eth_accounts", 1), false), "ethereum.method=eth_accounts|ethereum.id=1|ethereum.jsonrpc=2.0|http.method=POST|http.url=/|payload-hex="+hx(rpc("eth_accounts", 1))),
 		tok("unknown-method", httpReq("POST", "/", "eth", []string{"Content-Type: application/json"}, rpc("personal_unlock", 3), true), "ethereum.method=personal_unlock|ethereum.id=3|ethereum.jsonrpc=2.0|http.method=POST|http.url=/|payload-hex="+hx(rpc("personal_unlock", 3))),
